@@ -350,6 +350,13 @@ class Model:
         en, attrs = effective_attrs(it["attrs"], features)
         d = derives(attrs)
         sargs = serde_args(attrs)
+        # a derive replaced by (or shadowed by) a hand-written impl is outside what the translator reads
+        derived_any = any(x in d for x in ("Serialize", "Deserialize", "SerializeIndexed", "DeserializeIndexed",
+                                            "Serialize_repr", "Deserialize_repr"))
+        if derived_any:
+            for tr in ("Serialize", "Deserialize"):
+                if self.manual_impl(tr, name, mod) is not None:
+                    raise Untranslatable(key, f"hand-written {tr} impl on a type that also derives its serde representation")
         if it["kind"] == "struct":
             if "SerializeIndexed" in d or "DeserializeIndexed" in d:
                 return self.indexed_ty(it, attrs, features, d)
@@ -576,7 +583,7 @@ class Model:
     def manual_impl(self, trait, name, module=None):
         for imp in self.impls:
             tr = (imp["trait"] or "").replace(" ", "")
-            if tr.split("<")[0] == trait and imp["self_ty"].split("<")[0].strip() == name:
+            if tr.split("<")[0].split("::")[-1] == trait and imp["self_ty"].split("<")[0].strip().split("::")[-1].strip() == name:
                 if module is None or imp["module"] == module:
                     return imp
         return None
